@@ -3243,6 +3243,19 @@ CaseVexRvm_R:
       break;
     }
 
+    case InstDB::kEncodingVexRvmi_Lx_EvexAlt: {
+      // The EVEX form has a different opcode than the VEX form (vmpsadbw), so it must be known whether the EVEX prefix
+      // is required before the instruction is emitted - high registers, 512-bit vectors, {k}{z}, or an explicit {evex}.
+      uint32_t reg_ids = o0.id() | o1.id() | (o2.is_reg() ? o2.id() : uint32_t(0));
+      if ((reg_ids & 0x10u) != 0u || o0.x86_rm_size() == 64u || _extra_reg.id() != 0u ||
+          Support::test(options, InstOptions::kX86_Evex | InstOptions::kX86_ZMask)) {
+        opcode = alt_opcode_of(inst_info);
+      }
+
+      opcode |= opcode_l_by_size(o0.x86_rm_size() | o1.x86_rm_size());
+      goto VexRvmi;
+    }
+
     case InstDB::kEncodingVexRvmi_KEvex:
       opcode.force_evex_if(o0.is_mask_reg());
       goto VexRvmi;
